@@ -282,13 +282,13 @@ VARIANTS += [
     V("twin-eval-list", ["C01"], C, "        try:\n            nodes = tuple(nodes)\n            onevalue = False", "        try:\n            nodes = list(nodes)\n            onevalue = False", None, None, "materialised as a list", twin=True),
     V("twin-nodes-tuple-first", ["C12"], H, "        assert len(nodes) >= npts\n        if weights is None:\n            funcvals = eval_spline_nodes(knotvector, nodes, degree)", "        nodes = tuple(nodes)\n        assert len(nodes) >= npts\n        if weights is None:\n            funcvals = eval_spline_nodes(knotvector, nodes, degree)", None, None, "nodes copied into a tuple, order kept", twin=True),
     V("twin-and-front-slice", ["C17"], H, "        all_knots = tuple(sorted(set(self.knots) & set(other.knots)))", "        knotsa = set(self[self.degree : len(self) - self.degree])\n        knotsb = set(other[other.degree : len(other) - other.degree])\n        all_knots = tuple(sorted(knotsa & knotsb))", None, None, "inner knots sliced from the front", twin=True),
-    V("twin-nan-or-inf", ["C19"], A, "        if not np.isfinite(initparam):\n            return (umin, umax)\n        return [initparam]", "        if np.isnan(initparam) or np.isinf(initparam):\n            return (umin, umax)\n        return [initparam]", None, None, "isnan or isinf", twin=True),
+    V("twin-nan-or-inf", ["C19"], A, "        if not np.isfinite(float(initparam)):\n            return (umin, umax)\n        return [initparam]", "        if np.isnan(float(initparam)) or np.isinf(float(initparam)):\n            return (umin, umax)\n        return [initparam]", None, None, "isnan or isinf", twin=True),
     V("twin-classes-comprehension", ["C13", "C08"], H, "        classes = [0] * len(allknots)\n        for i, knot in enumerate(allknots):\n            multa = knotvectora.mult(knot)\n            multb = knotvectorb.mult(knot)\n            classes[i] = min(degreea - multa, degreeb - multb)\n", "        classes = [\n            min(degreea - knotvectora.mult(knot), degreeb - knotvectorb.mult(knot))\n            for knot in allknots\n        ]\n", None, None, "continuity classes in a comprehension", twin=True),
     V("twin-lcm-list", ["C16"], H, "            lcm = Math.lcm(*[Fraction(elem).denominator for elem in line])\n", "            denominators = [Fraction(elem).denominator for elem in line]\n            lcm = Math.lcm(*denominators)\n", None, None, "denominators through a local", twin=True),
     V("twin-schur-matmul", ["C11"], H, "        LL = np.dot(G, np.dot(GGinv, GT))\n", "        LL = G @ GGinv @ GT\n", None, None, "Schur complement with @", twin=True),
     V("schur-missing-inverse", ["C11"], H, "        QF = np.dot(GGinv, np.dot(GT, LLinv))\n", "        QF = np.dot(GGinv, np.dot(GT, LL))\n", None, None, "LL in the place of its inverse: dimensionally identical (degree 0), not decided", twin=True),
     V("gram-not-inverted", ["C11"], H, "            T = np.dot(GGinv, GF)\n            E = FF - np.dot(GF.T, T)\n", "            T = np.dot(GGinv, GF)\n            E = FF - np.dot(GF.T, np.dot(GG, T))\n", "BASIS-HOMOG", "func2func", "a Gram matrix too many in the error"),
-    V("twin-speed-dot", ["C10"], CA, "            abscurve_vals = tuple(np.sqrt(val @ val) for val in curve_vals)", "            abscurve_vals = tuple(np.sqrt(np.dot(val, val)) for val in curve_vals)", None, None, "norm with np.dot", twin=True),
+    V("twin-speed-dot", ["C10"], CA, "            abscurve_vals = tuple(np.sqrt(float(val @ val)) for val in curve_vals)", "            abscurve_vals = tuple(np.sqrt(float(np.dot(val, val))) for val in curve_vals)", None, None, "norm with np.dot", twin=True),
 ]
 
 
@@ -330,6 +330,9 @@ VARIANTS += [
     V("rev-F44", ["C03", "C04"], H, "        nodes = tuple(nodes)  # A one-pass iterable is walked only here\n        newvector = sorted(list(self) + list(nodes))\n", "        newvector = sorted(list(self) + list(nodes))\n", "WALK-ONCE", "ImmutableKnotVector.__add__", "nodes walked twice without being materialised"),
     V("twin-add-nodes-list", ["C03", "C04"], H, "        nodes = tuple(nodes)  # A one-pass iterable is walked only here\n        newvector = sorted(list(self) + list(nodes))\n", "        nodes = list(nodes)\n        newvector = sorted(list(self) + nodes)\n", None, None, "materialised as a list", twin=True),
     V("rev-F45", ["C15"], H, "    manyvalues = list(manyvalues)\n    manynodes = list(manynodes)\n", "    manyvalues = tuple(manyvalues)\n", "TUPLE-MUTATE", "find_roots", "samples kept as tuples and popped"),
+    V("rev-F46", ["C10"], CA, "            abscurve_vals = tuple(np.sqrt(float(val @ val)) for val in curve_vals)", "            abscurve_vals = tuple(np.sqrt(val @ val) for val in curve_vals)", "UFUNC-FLOAT", "Integrate.density", "np.sqrt of an unconverted inner product"),
+    V("rev-F47", ["C19"], A, "        if not np.isfinite(float(initparam)):\n", "        if not np.isfinite(initparam):\n", "UFUNC-FLOAT", "newton_point_on_curve", "np.isfinite of an unconverted parameter"),
+    V("twin-density-float-array", ["C10"], CA, "            abscurve_vals = tuple(np.sqrt(float(val @ val)) for val in curve_vals)", "            abscurve_vals = tuple(np.linalg.norm(np.array(val, dtype=\"float64\")) for val in curve_vals)", None, None, "norm of a float array", twin=True),
     V("insert-divide-by-umax", ["C04"], H, "        one = knotvector[-1] - knotvector[0]\n", "        one = knotvector[-1]\n", "D", "one_knot_insert_once", "unit made from the last knot alone (0 for an interval ending at 0)", near=908),
     V("increase-in-place-kv", ["C06"], C, "        nodes = self.knotvector.knots\n        newnodes = times * nodes\n        newvector = self.knotvector + newnodes\n        oldvector = tuple(self.knotvector)\n        matrix = heavy.Operations.degree_increase(oldvector, times)\n", "        oldvector = tuple(self.knotvector)\n        matrix = heavy.Operations.degree_increase(oldvector, times)\n        newvector = KnotVector(self.knotvector)\n        newvector.degree += times\n", "SHARED-KV", "degree_increase", "the stored KnotVector object is elevated in place"),
 ]
